@@ -51,8 +51,13 @@
 // simulated time in timing mode); Counters["simtime_after_dump"] is the time after the read-back.
 // Counters: "events" (engine events executed until end of Run), "events_total", "buffers", "bytes",
 // "contexts". Raw buffer bytes are included when size ≤ Knobs["rawLimit"] (default 256).
+// "contexts", "kicks" (see below), "kicks_run" (those during Run()).
 // Knobs: "log2PageSize" (emulation builder), "magicMemoryCopy" (timing builder), "rawLimit",
-// "noDump" (skip the read-back: observe exactly what the sample binary would do).
+// "noDump" (skip the read-back: observe exactly what the sample binary would do), "noKick".
+// Watchdog: Driver.DrainCommandQueue has two lost-wake-up races (property C12) that make a run
+// hang now and then (≈2 % of runs under load). They are not what the whole-workload properties
+// are about, so the child re-sends the wake-ups (Driver.VerifKick) after 1.5 s without an engine
+// event; every such kick is counted — a result with kicks > 0 finished only thanks to it.
 // The simulation's sqlite file is created inside the run directory and removed with it.
 package main
 
@@ -270,11 +275,10 @@ var benchTable = []benchDef{
 			b.Arch = a
 			return b
 		},
-		sizes: []P{{"length": 256, "taps": 16}, {"length": 100, "taps": 16}, {"length": 1000, "taps": 7}, {"length": 64, "taps": 1}, {"length": 1, "taps": 16}, {"length": 4096, "taps": 33}},
+		sizes:  []P{{"length": 256, "taps": 16}, {"length": 100, "taps": 16}, {"length": 1000, "taps": 7}, {"length": 1, "taps": 16}, {"length": 300, "taps": 40}, {"length": 4096, "taps": 33}},
 		nQuick: 2,
-		ok:     always,
-		rule: "fir.go exec: grid = Length/len(queues) work-items, work-group 256 (partial last group); the kernel guards nothing but reads " +
-			"input[tid+i] from a history-padded buffer, so every Length ≥ 1 with Length % #GPUs == 0 is in contract; taps ≥ 1 (heteromark/fir/fir.go:150-230)",
+		ok:     func(p map[string]int, n int, unified bool) bool { return p["length"]%pieces(n, unified) == 0 },
+		rule:   "any Length ≥ 1 and taps ≥ 1: grid = Length/#GPUs work-items in work-groups of 256 with a partial last group; the kernel reads input[tid+i] from a history-padded copy, so no divisibility is assumed beyond Length % #GPUs == 0 for a plain split (heteromark/fir/fir.go enqueueKernel:179-235)",
 	},
 	{
 		name: "vectoradd", archs: []string{"cdna3"}, multiGPU: "all", accept: "none", accSize: P{"width": 4096, "height": 1},
@@ -317,10 +321,10 @@ var benchTable = []benchDef{
 			b.Arch = a
 			return b
 		},
-		sizes:  []P{{"node": 16, "iter": 0}, {"node": 8, "iter": 0}, {"node": 32, "iter": 0}, {"node": 24, "iter": 5}, {"node": 64, "iter": 3}},
+		sizes:  []P{{"node": 16, "iter": 0}, {"node": 20, "iter": 0}, {"node": 8, "iter": 0}, {"node": 100, "iter": 4}, {"node": 24, "iter": 5}},
 		nQuick: 2,
 		ok:     always,
-		rule:   "TODO",
+		rule:   "any NumNodes ≥ 1: Run() rounds the node count up to the 8x8 work-group (after fix 10702b3f; before it only the launch grid and the kernel's row stride were rounded and e.g. node=20 failed); iter=0 means NumNodes passes (amdappsdk/floydwarshall/floydwarshall.go Run/exec)",
 	},
 	{
 		name: "bitonicsort", archs: []string{"gcn3", "cdna3"}, multiGPU: "all", accept: "none",
@@ -331,10 +335,10 @@ var benchTable = []benchDef{
 			b.OrderAscending = p["order-asc"] != 0
 			return b
 		},
-		sizes:  []P{{"length": 256, "order-asc": 1}, {"length": 1024, "order-asc": 0}, {"length": 128, "order-asc": 1}, {"length": 2048, "order-asc": 1}},
+		sizes:  []P{{"length": 256, "order-asc": 1}, {"length": 1024, "order-asc": 0}, {"length": 64, "order-asc": 1}, {"length": 2, "order-asc": 1}, {"length": 2048, "order-asc": 1}},
 		nQuick: 2,
-		ok:     always,
-		rule:   "TODO",
+		ok:     func(p map[string]int, n int, unified bool) bool { l := p["length"]; return l >= 2 && l&(l-1) == 0 },
+		rule:   "Length must be a power of two ≥ 2: a bitonic network; numStages = log2(Length) is computed by shifting (bitonicsort.go:156) and each pass launches Length/2 work-items; other lengths are outside the algorithm's contract (the run aborts in the emulator), as in the AMD APP SDK sample which rejects them",
 	},
 	{
 		name: "fastwalshtransform", archs: []string{"gcn3", "cdna3"}, multiGPU: "all", accept: "none",
@@ -344,10 +348,10 @@ var benchTable = []benchDef{
 			b.Arch = a
 			return b
 		},
-		sizes:  []P{{"length": 256}, {"length": 1024}, {"length": 512}, {"length": 2048}},
+		sizes:  []P{{"length": 256}, {"length": 1024}, {"length": 64}, {"length": 2}, {"length": 2048}},
 		nQuick: 2,
-		ok:     always,
-		rule:   "TODO",
+		ok:     func(p map[string]int, n int, unified bool) bool { l := p["length"]; return l >= 2 && l&(l-1) == 0 },
+		rule:   "Length must be a power of two ≥ 2: the butterfly loop `for step := 1; step < Length; step <<= 1` with Length/2 work-items per step (fastwalshtransform.go:145-200); the SDK sample rounds other lengths, this port does not, and its own CPU reference indexes out of range for them",
 	},
 	{
 		name: "matrixmultiplication", archs: []string{"gcn3", "cdna3"}, multiGPU: "all", accept: "full40", accSize: P{"x": 128, "y": 128, "z": 128},
@@ -359,10 +363,12 @@ var benchTable = []benchDef{
 			b.Z = uint32(p["z"])
 			return b
 		},
-		sizes:  []P{{"x": 32, "y": 32, "z": 32}, {"x": 64, "y": 32, "z": 96}, {"x": 64, "y": 64, "z": 64}, {"x": 128, "y": 32, "z": 32}},
+		sizes:  []P{{"x": 32, "y": 32, "z": 32}, {"x": 64, "y": 20, "z": 96}, {"x": 32, "y": 4, "z": 64}, {"x": 96, "y": 12, "z": 32}, {"x": 128, "y": 64, "z": 64}},
 		nQuick: 2,
-		ok:     always,
-		rule:   "TODO",
+		ok: func(p map[string]int, n int, unified bool) bool {
+			return p["x"]%(32*pieces(n, unified)) == 0 && p["z"]%32 == 0 && p["y"]%4 == 0 && p["y"] >= 4
+		},
+		rule: "X % (32·#GPUs) == 0, Z % 32 == 0, Y % 4 == 0: grid = (Z/4, X/4/#GPUs) work-items in 8x8 work-groups, each work-item produces a 4x4 tile and reads A/B as float4 without bounds tests (mm.go launchKernel:100-150, kernel mmmKernel_local); the SDK sample pads matrices to these multiples, this port takes the sizes as given. Observed: Y ∈ {5,6,33} verify anyway, Y < 4 crashes the emulator (nil dereference) — outside the contract, not chased",
 	},
 	{
 		name: "nbody", archs: []string{"gcn3", "cdna3"}, multiGPU: "all", accept: "full40",
@@ -373,10 +379,10 @@ var benchTable = []benchDef{
 			b.NumParticles = int32(p["particles"])
 			return b
 		},
-		sizes:  []P{{"particles": 256, "iter": 1}, {"particles": 512, "iter": 2}, {"particles": 1024, "iter": 1}},
+		sizes:  []P{{"particles": 256, "iter": 1}, {"particles": 100, "iter": 1}, {"particles": 65, "iter": 2}, {"particles": 512, "iter": 2}, {"particles": 1, "iter": 1}},
 		nQuick: 2,
 		ok:     always,
-		rule:   "TODO",
+		rule:   "any NumParticles ≥ 1: grid = numBodies work-items in work-groups of groupSize with a partial last group, no divisibility requirement in the host code (amdappsdk/nbody/nbody.go:198-199); 1, 65, 100 particles verified on both architectures",
 	},
 	{
 		name: "simpleconvolution", archs: []string{"gcn3", "cdna3"}, multiGPU: "all", accept: "full40",
@@ -388,10 +394,10 @@ var benchTable = []benchDef{
 			b.Arch = a
 			return b
 		},
-		sizes:  []P{{"width": 62, "height": 62, "mask-size": 3}, {"width": 100, "height": 70, "mask-size": 3}, {"width": 60, "height": 60, "mask-size": 5}, {"width": 254, "height": 254, "mask-size": 3}},
+		sizes:  []P{{"width": 62, "height": 62, "mask-size": 3}, {"width": 100, "height": 70, "mask-size": 3}, {"width": 33, "height": 17, "mask-size": 5}, {"width": 64, "height": 64, "mask-size": 4}, {"width": 10, "height": 300, "mask-size": 7}, {"width": 1, "height": 1, "mask-size": 3}},
 		nQuick: 2,
 		ok:     always,
-		rule:   "TODO",
+		rule:   "any Width, Height ≥ 1 and mask size ≥ 1 (odd or even): the host pads the input by mask-1 and rounds the grid up to the work-group (amdappsdk/simpleconvolution/simpleconvolution.go:150-240); 1x1, 33x17 mask 5, 64x64 mask 4, 10x300 mask 7 verified on both architectures",
 	},
 	{
 		name: "aes", archs: []string{"gcn3", "cdna3"}, multiGPU: "all", accept: "full40", accSize: P{"length": 16384},
@@ -401,10 +407,10 @@ var benchTable = []benchDef{
 			b.Length = p["length"]
 			return b
 		},
-		sizes:  []P{{"length": 1024}, {"length": 4096}, {"length": 2048}, {"length": 16384}},
+		sizes:  []P{{"length": 1024}, {"length": 160}, {"length": 16}, {"length": 4112}, {"length": 4096}},
 		nQuick: 2,
-		ok:     always,
-		rule:   "TODO",
+		ok:     func(p map[string]int, n int, unified bool) bool { return p["length"]%(16*pieces(n, unified)) == 0 },
+		rule:   "Length % (16·#GPUs) == 0: one work-item encrypts one 16-byte AES block, grid = Length/16/#GPUs (aes.go:200-250); a trailing partial block is not encrypted by the kernel but is by the CPU reference (length=1000 fails at byte 992) — AES-ECB without padding is defined on whole blocks only",
 	},
 	{
 		name: "kmeans", archs: []string{"gcn3", "cdna3"}, multiGPU: "all", accept: "full40", accSize: P{"points": 1024, "features": 32, "clusters": 5, "max-iter": 5},
@@ -417,10 +423,10 @@ var benchTable = []benchDef{
 			b.MaxIter = p["max-iter"]
 			return b
 		},
-		sizes:  []P{{"points": 256, "features": 8, "clusters": 3, "max-iter": 2}, {"points": 512, "features": 4, "clusters": 5, "max-iter": 3}, {"points": 1024, "features": 32, "clusters": 5, "max-iter": 2}},
+		sizes:  []P{{"points": 256, "features": 8, "clusters": 3, "max-iter": 2}, {"points": 100, "features": 3, "clusters": 2, "max-iter": 2}, {"points": 300, "features": 5, "clusters": 7, "max-iter": 3}, {"points": 1, "features": 1, "clusters": 1, "max-iter": 1}},
 		nQuick: 2,
 		ok:     always,
-		rule:   "TODO",
+		rule:   "any points/features/clusters ≥ 1: no divisibility requirement in the host code (heteromark/kmeans/kmeans.go, grids rounded per work-group of 64); 1, 100, 300 points verified on both architectures",
 	},
 	{
 		name: "pagerank", archs: []string{"gcn3", "cdna3"}, multiGPU: "all", accept: "full40", accSize: P{"node": 64, "sparsity-permille": 500, "iterations": 2},
@@ -437,10 +443,10 @@ var benchTable = []benchDef{
 			b.MaxIterations = uint32(p["iterations"])
 			return b
 		},
-		sizes:  []P{{"node": 64, "sparsity-permille": 500, "iterations": 2}, {"node": 128, "sparsity-permille": 100, "iterations": 3}, {"node": 256, "sparsity-permille": 10, "iterations": 2}},
+		sizes:  []P{{"node": 64, "sparsity-permille": 500, "iterations": 2}, {"node": 100, "sparsity-permille": 100, "iterations": 2}, {"node": 65, "sparsity-permille": 300, "iterations": 3}, {"node": 16, "sparsity-permille": 1, "iterations": 16}},
 		nQuick: 2,
 		ok:     always,
-		rule:   "TODO",
+		rule:   "any NumNodes ≥ 1, connections ≥ NumNodes (the sample clamps): one 64-wide work-group per row, kernel guards `row < num_rows` (heteromark/pagerank/native/kernels.cl:42)",
 	},
 	{
 		name: "atax", archs: []string{"gcn3", "cdna3"}, multiGPU: "all", accept: "full40", accSize: P{"x": 256, "y": 256},
@@ -451,10 +457,10 @@ var benchTable = []benchDef{
 			b.NY = p["y"]
 			return b
 		},
-		sizes:  []P{{"x": 64, "y": 64}, {"x": 128, "y": 64}, {"x": 256, "y": 256}, {"x": 100, "y": 60}},
+		sizes:  []P{{"x": 64, "y": 64}, {"x": 100, "y": 60}, {"x": 33, "y": 77}, {"x": 256, "y": 32}, {"x": 32, "y": 256}},
 		nQuick: 2,
 		ok:     always,
-		rule:   "TODO",
+		rule:   "any NX, NY ≥ 1: grids rounded up to 256 and both kernels guard `i < nx` / `j < ny` (polybench/atax/benchmark.go:236-250, native/atax.cl); NX ≠ NY needs fix fec44504 (host vector x had NX elements)",
 	},
 	{
 		name: "bicg", archs: []string{"gcn3", "cdna3"}, multiGPU: "all", accept: "full40", accSize: P{"x": 256, "y": 256},
@@ -465,10 +471,10 @@ var benchTable = []benchDef{
 			b.NY = p["y"]
 			return b
 		},
-		sizes:  []P{{"x": 64, "y": 64}, {"x": 128, "y": 64}, {"x": 256, "y": 256}, {"x": 100, "y": 60}},
+		sizes:  []P{{"x": 64, "y": 64}, {"x": 100, "y": 60}, {"x": 33, "y": 77}, {"x": 256, "y": 32}, {"x": 32, "y": 256}},
 		nQuick: 2,
 		ok:     always,
-		rule:   "TODO",
+		rule:   "any NX, NY ≥ 1: grids rounded up to 256 and both kernels guard `i < nx` / `j < ny` (polybench/bicg/native/bicg.cl:22,39)",
 	},
 	{
 		name: "nw", archs: []string{"gcn3", "cdna3"}, multiGPU: "none", accept: "none", accSize: P{"length": 64},
@@ -478,10 +484,10 @@ var benchTable = []benchDef{
 			b.SetLength(p["length"])
 			return b
 		},
-		sizes:  []P{{"length": 64}, {"length": 128}, {"length": 32}, {"length": 256}},
+		sizes:  []P{{"length": 64}, {"length": 128}, {"length": 192}, {"length": 256}},
 		nQuick: 2,
-		ok:     always,
-		rule:   "TODO",
+		ok:     func(p map[string]int, n int, unified bool) bool { return p["length"]%64 == 0 && p["length"] >= 64 },
+		rule:   "length must be a positive multiple of the block size 64: both kernels work on whole 64x64 blocks, worksize/blockSize blocks per anti-diagonal (rodinia/nw/benchmark.go:240-330; Rodinia's nw.c rejects other sizes). length ≥ 192 needs fix 2af7da67 (kernel-2 launch order)",
 	},
 	{
 		name: "bfs", archs: []string{"gcn3", "cdna3"}, multiGPU: "unified", accept: "bfs", accSize: P{"node": 1024},
@@ -498,10 +504,10 @@ var benchTable = []benchDef{
 			b.MaxDepth = md
 			return b
 		},
-		sizes:  []P{{"node": 64, "degree": 3, "depth": 0}, {"node": 100, "degree": 2, "depth": 0}, {"node": 1024, "degree": 3, "depth": 0}, {"node": 300, "degree": 5, "depth": 3}},
+		sizes:  []P{{"node": 64, "degree": 3, "depth": 0}, {"node": 100, "degree": 2, "depth": 0}, {"node": 257, "degree": 4, "depth": 0}, {"node": 300, "degree": 5, "depth": 3}, {"node": 1024, "degree": 3, "depth": 0}},
 		nQuick: 2,
-		ok:     always,
-		rule:   "TODO",
+		ok:     func(p map[string]int, n int, unified bool) bool { return p["node"] >= 2 },
+		rule:   "any NumNode ≥ 2, Degree ≥ 1 (generated graph), depth 0 = unlimited: one work-item per node, guarded by numNodes (shoc/bfs/bfs.go:150-235); node=1 generates no edge and the benchmark panics on a 0-byte allocation (degenerate, excluded)",
 	},
 	{
 		name: "fft", archs: []string{"gcn3", "cdna3"}, multiGPU: "all", accept: "full40", accSize: P{"MB": 1},
@@ -517,10 +523,10 @@ var benchTable = []benchDef{
 			b.Passes = int32(p["passes"])
 			return b
 		},
-		sizes:  []P{{"bytes": 8192, "MB": 0, "passes": 1}, {"bytes": 32768, "MB": 0, "passes": 2}, {"bytes": 65536, "MB": 0, "passes": 1}},
+		sizes:  []P{{"bytes": 8192, "MB": 0, "passes": 1}, {"bytes": 32768, "MB": 0, "passes": 2}, {"bytes": 12288, "MB": 0, "passes": 1}, {"bytes": 65536, "MB": 0, "passes": 1}},
 		nQuick: 2,
-		ok:     always,
-		rule:   "TODO",
+		ok:     func(p map[string]int, n int, unified bool) bool { return p["bytes"] >= 8192 },
+		rule:   "bytes ≥ 8192 (rounded down by the benchmark itself to a multiple of 8192 = two 512-point complex-float FFTs: halfNFfts = Bytes/8192, fft.go:143-150); below that the benchmark panics on a 0-byte allocation",
 	},
 	{
 		name: "spmv", archs: []string{"gcn3", "cdna3"}, multiGPU: "all", accept: "spmv",
@@ -531,10 +537,10 @@ var benchTable = []benchDef{
 			b.Arch = a
 			return b
 		},
-		sizes:  []P{{"dim": 128, "sparsity-permille": 10}, {"dim": 100, "sparsity-permille": 50}, {"dim": 256, "sparsity-permille": 10}, {"dim": 65, "sparsity-permille": 100}},
+		sizes:  []P{{"dim": 128, "sparsity-permille": 10}, {"dim": 100, "sparsity-permille": 50}, {"dim": 300, "sparsity-permille": 20}, {"dim": 65, "sparsity-permille": 100}, {"dim": 512, "sparsity-permille": 10}},
 		nQuick: 2,
 		ok:     always,
-		rule:   "TODO",
+		rule:   "any Dim ≥ 1: grid = Dim in work-groups of 128 with a partial last group, kernel guards `myRow < dim` (shoc/spmv/spmv.go exec); cdna3 with more than one work-group needs fix b4072461",
 	},
 	{
 		name: "stencil2d", archs: []string{"gcn3", "cdna3"}, multiGPU: "all", accept: "full40",
@@ -546,10 +552,12 @@ var benchTable = []benchDef{
 			b.NumCols = p["col"] + 2
 			return b
 		},
-		sizes:  []P{{"row": 64, "col": 64, "iter": 1}, {"row": 128, "col": 64, "iter": 2}, {"row": 64, "col": 128, "iter": 3}, {"row": 256, "col": 256, "iter": 1}},
+		sizes:  []P{{"row": 64, "col": 64, "iter": 1}, {"row": 32, "col": 128, "iter": 2}, {"row": 16, "col": 64, "iter": 3}, {"row": 128, "col": 64, "iter": 2}},
 		nQuick: 2,
-		ok:     always,
-		rule:   "TODO",
+		ok: func(p map[string]int, n int, unified bool) bool {
+			return p["row"]%16 == 0 && p["col"]%64 == 0 && p["row"] > 0 && p["col"] > 0
+		},
+		rule: "row % 16 == 0 and col % 64 == 0 (sizes without the halo): StencilKernel has no bounds test, grid = ((rows)/localRows, cols) with localRows=16, work-group (1,64) staging a (16+2)x(64+2) LDS tile (shoc/stencil2d/stencil2d.go:155-160,300-315); SHOC's Stencil2D main rejects other sizes. Other sizes run off the matrix (wrong result or undecodable garbage)",
 	},
 	{
 		name: "relu", archs: []string{"gcn3", "cdna3"}, multiGPU: "all", accept: "full40",
@@ -559,10 +567,10 @@ var benchTable = []benchDef{
 			b.Length = p["length"]
 			return b
 		},
-		sizes:  []P{{"length": 256}, {"length": 100}, {"length": 4096}, {"length": 1000}, {"length": 1}},
+		sizes:  []P{{"length": 256}, {"length": 100}, {"length": 1}, {"length": 1000}, {"length": 4096}},
 		nQuick: 2,
 		ok:     always,
-		rule:   "TODO",
+		rule:   "any Length ≥ 1: grid rounded up, kernel guards `index < count` (dnn/layer_benchmarks/relu/native/relu.cpp:10)",
 	},
 	{
 		name: "conv2d", archs: []string{"gcn3", "cdna3"}, multiGPU: "none", accept: "none",
@@ -584,7 +592,7 @@ var benchTable = []benchDef{
 		},
 		nQuick: 1,
 		ok:     always,
-		rule:   "TODO",
+		rule:   "any N,C,H,W ≥ 1 with kernel ≤ padded input and stride ≥ 1; single GPU only (SelectGPU panics otherwise); checked by the GPU-vs-CPU operator cross-check (EnableVerification) since Verify() is empty",
 	},
 	{
 		name: "im2col", archs: []string{"gcn3", "cdna3"}, multiGPU: "none", accept: "none",
@@ -605,7 +613,7 @@ var benchTable = []benchDef{
 		},
 		nQuick: 1,
 		ok:     always,
-		rule:   "TODO",
+		rule:   "any N,C,H,W ≥ 1 with kernel ≤ padded input, stride, dilation ≥ 1; single GPU only; checked by the GPU-vs-CPU operator cross-check; H ≠ W needs fix c7d6a23a",
 	},
 }
 
@@ -749,10 +757,10 @@ func AcceptanceClasses(bench string) []AcceptClass {
 
 // cdna3 entries of cases.go (lines 686-925).
 var acceptExtra = map[string][]AcceptClass{
-	"spmv":  {{GPUs: []int{1}, Arch: "cdna3", GPUType: "r9nano", ParallelToo: true}},
-	"fft":   {{GPUs: []int{1}, Arch: "cdna3", GPUType: "r9nano", ParallelToo: true}},
-	"bfs":   {{GPUs: []int{1}, Arch: "cdna3", GPUType: "r9nano", ParallelToo: true}},
-	"nw":    {{GPUs: []int{1}, Arch: "cdna3", GPUType: "r9nano", ParallelToo: true}},
+	"spmv": {{GPUs: []int{1}, Arch: "cdna3", GPUType: "r9nano", ParallelToo: true}},
+	"fft":  {{GPUs: []int{1}, Arch: "cdna3", GPUType: "r9nano", ParallelToo: true}},
+	"bfs":  {{GPUs: []int{1}, Arch: "cdna3", GPUType: "r9nano", ParallelToo: true}},
+	"nw":   {{GPUs: []int{1}, Arch: "cdna3", GPUType: "r9nano", ParallelToo: true}},
 	"stencil2d": {
 		{GPUs: []int{1}, Arch: "cdna3", GPUType: "r9nano", ParallelToo: true},
 		{GPUs: []int{1, 2}, UnifiedGPU: true, Arch: "cdna3", GPUType: "r9nano"},
@@ -776,6 +784,9 @@ func RunWorkload(spec WorkloadSpec, timeout time.Duration) WorkloadResult {
 	root := WorkloadDir
 	if root == "" {
 		root = os.TempDir()
+	}
+	if abs, err := filepath.Abs(root); err == nil {
+		root = abs
 	}
 	dir := filepath.Join(root, fmt.Sprintf("wl-%d-%d", os.Getpid(), atomic.AddInt64(&workloadSeq, 1)))
 	if err := os.MkdirAll(dir, 0o755); err != nil {
@@ -848,7 +859,7 @@ func RunWorkload(spec WorkloadSpec, timeout time.Duration) WorkloadResult {
 	}
 	if res.Fault != "" || !res.VerifyOK {
 		if b, err := os.ReadFile(filepath.Join(dir, "stderr.txt")); err == nil {
-			res.Log = logTail(string(b), 1200)
+			res.Log = logTail(string(b), 5000)
 		}
 	}
 	return res
@@ -861,7 +872,7 @@ func logTail(s string, n int) string {
 		return s
 	}
 	head := ""
-	for _, key := range []string{"panic:", "fatal error:"} {
+	for _, key := range []string{"panic:", "Panic:", "fatal error:"} {
 		if i := strings.Index(s, key); i >= 0 && i < len(s)-n/2 {
 			end := i + n/2
 			if end > len(s) {
@@ -990,10 +1001,44 @@ func workloadChild(args []string) {
 	if spec.UnifiedMem {
 		b.SetUnifiedMemory()
 	}
+	// Runner.Run with -verify: benchmarks whose check is the GPU-vs-CPU operator cross-check
+	// (dnn layer benchmarks; their Verify() is empty) switch it on before Run(); a mismatch then
+	// panics inside Run() and is reported as Fault "panic:…mismatch…".
+	if pv, ok := b.(interface{ EnableVerification() }); ok {
+		pv.EnableVerification()
+	}
 
 	drv.Run()
 	res.Stage = "run"
 	save()
+
+	// Watchdog for the driver's known lost-wake-up races (property C12, not C01's subject): when
+	// no engine event ran and the stage did not change for ~1.5 s while the benchmark is inside
+	// Run() or the read-back, re-send the wake-ups (Driver.VerifKick). Counted in Counters["kicks"].
+	var kicks, stageNo int64
+	if spec.Knobs["noKick"] == 0 {
+		go func() {
+			lastEv, lastStage, idle := int64(-1), int64(-1), 0
+			for {
+				time.Sleep(500 * time.Millisecond)
+				ev, st := atomic.LoadInt64(&events), atomic.LoadInt64(&stageNo)
+				if st >= 2 {
+					return
+				}
+				if ev == lastEv && st == lastStage {
+					idle++
+				} else {
+					idle = 0
+				}
+				lastEv, lastStage = ev, st
+				if idle >= 3 {
+					atomic.AddInt64(&kicks, 1)
+					drv.VerifKick()
+					idle = 0
+				}
+			}
+		}()
+	}
 	if f := catchMsg(b.Run); f != "" {
 		res.Fault, res.VerifyMsg = "panic:"+classifyText(f), f
 		save()
@@ -1002,6 +1047,8 @@ func workloadChild(args []string) {
 	res.Ran = true
 	res.SimTime = float64(s.GetEngine().CurrentTime())
 	res.Counters["events"] = float64(atomic.LoadInt64(&events))
+	res.Counters["kicks_run"] = float64(atomic.LoadInt64(&kicks))
+	atomic.StoreInt64(&stageNo, 1)
 	res.Stage = "dump"
 	save()
 
@@ -1034,6 +1081,8 @@ func workloadChild(args []string) {
 		res.Counters["simtime_after_dump"] = float64(s.GetEngine().CurrentTime())
 		res.Counters["events_total"] = float64(atomic.LoadInt64(&events))
 	}
+	atomic.StoreInt64(&stageNo, 2)
+	res.Counters["kicks"] = float64(atomic.LoadInt64(&kicks))
 	res.Stage = "verify"
 	save()
 
